@@ -1,7 +1,7 @@
 from argparse import ArgumentError
 from mpi4py import MPI
 from math import pi
-from glob import glob
+from glob import glob, escape
 import numpy as np
 import warnings
 import h5py
@@ -206,7 +206,7 @@ def setupFromFile(foldername, constantFile: str = None, **kwargs):
         filename = os.path.join(foldername, "grid_{:06}.h5".format(t))
         assert os.path.exists(filename)
     else:
-        list_of_files = glob("{0}/grid_*".format(foldername))
+        list_of_files = glob("{0}/grid_*".format(escape(foldername)))
         if (len(list_of_files) > 0):
             # The latest checkpoint is the one with the largest time (the
             # names are only ordered like the times up to 6 digits)
